@@ -85,7 +85,8 @@ func runCase(t *testing.T) func(Case) pbt.Result {
 				var ri regInfo
 				for _, p := range e.Pubs {
 					ri.headPos = append(ri.headPos, len(p.Chain)-1)
-					ri.parked = append(ri.parked, p.InFlight() > 0)
+					// only a request parked at a closed gate is known not to finish before the registration
+					ri.parked = append(ri.parked, p.IsHeld() && p.InFlight() > 0)
 				}
 				e.Run(i, st, known)
 				if len(e.Listeners) > nl {
